@@ -121,7 +121,7 @@ theorem componentFromBytes_compBytes (c : Component) (hc : CompValid c) (hl : c.
     of the theorems above (`Valid`, successful build, `NoTrailingDigest`, hash size, non-empty
     segments, healthy readers via `at_newBufferReader` / `newWireReader_healthy`) -/
 
-/-- hypotheses of makeData_normalForm / makeData_wellFormed / readData_makeData are met -/
+-- hypotheses of makeData_normalForm / makeData_wellFormed / readData_makeData are met
 set_option maxRecDepth 100000 in
 example : ∃ e, makeData exData exSign = .ok e ∧ e.sigVal.length = 200 := ⟨_, rfl, rfl⟩
 set_option maxRecDepth 100000 in
